@@ -84,23 +84,42 @@ Definition with_eds_conds (st : eds_status) (cs : list cond) : eds_status :=
 Section Sync.
 Variable sn : eds_snapshot.
 
+(** the two writes that end [updateInstanceWithCurrentRS]: status first, then (when asked) the object *)
+Definition finish_update (e : eds) (st' : eds_status) (tmpl_hash' : name) (ann' : eds_annots) (write_spec : bool)
+  : outcome eds_plan :=
+  if eds_status_eqb (e_status e) st' && N.eqb tmpl_hash' (e_tmpl_hash e) && annots_eqb (e_annots e) ann'
+  then Ok (MkEdsPlan [] false 0 false)
+  else if es_fail_status sn then Ok (MkEdsPlan [WStatus st'] false 0 true)
+  else if write_spec then Ok (MkEdsPlan [WStatus st'; WSpec tmpl_hash' ann'] false 0 (es_fail_update sn))
+  else Ok (MkEdsPlan [WStatus st'] false 0 false).
+
+(** the status before the canary bookkeeping: counters from the current replica set and the sums *)
+Definition base_status (e : eds) (current : ers) (sum_cur sum_rdy sum_av : Z) : eds_status :=
+  let st := e_status e in
+  let cu := r_status current in
+  MkEdsStatus (rs_desired cu) sum_cur sum_rdy sum_av (rs_current cu) (rs_ignored cu)
+              (non_canary_state (e_annots e)) (r_name current) (es_canary st) (es_reason st) (es_conds st).
+
+(** the nodes matching the canary node selector, in list order *)
+Definition canary_candidate_nodes (c : canary_spec) : list node :=
+  match ca_nodesel c with
+  | Some sel => if lenient_selector_ok sel
+                then filter (fun n => lenient_selector_matches sel (n_labels n)) (es_nodes sn)
+                else es_nodes sn
+  | None => es_nodes sn
+  end.
+Definition eds_pods (e : eds) : list pod :=
+  filter (fun p => N.eqb (p_ns p) (e_ns e) && p_has_eds_label p (e_name e)) (es_pods sn).
+
 (** [updateInstanceWithCurrentRS].  Errors: 51 canary replicas do not resolve, 52 not enough canary
     nodes; both return before any write. Panic 50: nil canary sub-structure. *)
 Definition update_instance (e : eds) (current uptodate : ers) (sum_cur sum_rdy sum_av : Z) : outcome eds_plan :=
   let now := es_now sn in
   let st := e_status e in
   let ann := e_annots e in
-  let cu := r_status current in
-  let st1 := MkEdsStatus (rs_desired cu) sum_cur sum_rdy sum_av (rs_current cu) (rs_ignored cu)
-                         (non_canary_state ann) (r_name current) (es_canary st) (es_reason st) (es_conds st) in
-  let finish (st' : eds_status) (tmpl_hash' : name) (ann' : eds_annots) (write_spec : bool) : outcome eds_plan :=
-    if eds_status_eqb st st' && N.eqb tmpl_hash' (e_tmpl_hash e) && annots_eqb ann ann'
-    then Ok (MkEdsPlan [] false 0 false)
-    else if es_fail_status sn then Ok (MkEdsPlan [WStatus st'] false 0 true)
-    else if write_spec then Ok (MkEdsPlan [WStatus st'; WSpec tmpl_hash' ann'] false 0 (es_fail_update sn))
-    else Ok (MkEdsPlan [WStatus st'] false 0 false) in
+  let st1 := base_status e current sum_cur sum_rdy sum_av in
   match st_canary (e_strategy e) with
-  | None => finish st1 (e_tmpl_hash e) ann false
+  | None => finish_update e st1 (e_tmpl_hash e) ann false
   | Some c =>
       let '(paused, reason) := canary_paused ann (Some (r_status uptodate)) in
       let failed := canary_failed_rs (r_status uptodate) in
@@ -116,25 +135,25 @@ Definition update_instance (e : eds) (current uptodate : ers) (sum_cur sum_rdy s
             | None => Error 51%N
             | Some nb =>
                 let previous := match es_canary st3 with Some cs => cs_nodes cs | None => [] end in
-                if nb =? zlen previous then finish st3 tmpl_hash' ann failed
+                if nb =? zlen previous then finish_update e st3 tmpl_hash' ann failed
                 else
-                  let nodes :=
-                    match ca_nodesel c with
-                    | Some sel => if lenient_selector_ok sel
-                                  then filter (fun n => lenient_selector_matches sel (n_labels n)) (es_nodes sn)
-                                  else es_nodes sn
-                    | None => es_nodes sn
-                    end in
-                  let pods := filter (fun p => N.eqb (p_ns p) (e_ns e) && p_has_eds_label p (e_name e)) (es_pods sn) in
-                  let '(sel, enough) := select_nodes (r_tmpl uptodate) (ca_antiaffinity c) nb nodes pods previous in
-                  if enough then finish (with_canary_nodes st3 sel) tmpl_hash' ann failed
+                  let '(sel, enough) := select_nodes (r_tmpl uptodate) (ca_antiaffinity c) nb
+                                                     (canary_candidate_nodes c) (eds_pods e) previous in
+                  if enough then finish_update e (with_canary_nodes st3 sel) tmpl_hash' ann failed
                   else Error 52%N
             end
         end
       else
         let '(ann', changed) := clear_canary_annots ann in
-        finish st3 tmpl_hash' ann' (failed || changed)
+        finish_update e st3 tmpl_hash' ann' (failed || changed)
   end.
+
+(** the replica sets the reconcile deletes: not current, not up to date, not already terminating,
+    all-zero status and (failed canaries) older than the retention *)
+Definition rs_to_delete (rss : list ers) (current uptodate : ers) : list name :=
+  map r_name (filter (fun r => negb (N.eqb (r_name r) (r_name current)) &&
+                               negb (N.eqb (r_name r) (r_name uptodate)) &&
+                               negb (r_deleting r) && should_delete_ers (es_now sn) r) rss).
 
 Definition eds_sync : outcome eds_plan :=
   match es_obj sn with
@@ -158,10 +177,7 @@ Definition eds_sync : outcome eds_plan :=
                               (negb (es_fail_rs_create sn)) 0 (es_fail_rs_create sn))
             | Some uptodate =>
                 let '(current, rq) := select_current (e_annots e) (st_canary (e_strategy e)) active uptodate (es_now sn) in
-                let dels := map r_name
-                              (filter (fun r => negb (N.eqb (r_name r) (r_name current)) &&
-                                                negb (N.eqb (r_name r) (r_name uptodate)) &&
-                                                negb (r_deleting r) && should_delete_ers (es_now sn) r) rss) in
+                let dels := rs_to_delete rss current uptodate in
                 let del_writes := map WDeleteRs dels in
                 if existsb (fun d => memN d (es_fail_rs_delete sn)) dels
                 then Ok (MkEdsPlan del_writes false rq true)
